@@ -158,7 +158,7 @@ def run(rep, tier, rng):
         for ops in ([("it", 1), ("it", -1)], [("it", 1), ("readall",)], [("it", 2), ("it", 1), ("readall",)], [("it", 1), ("it", 1), ("it", 1), ("it", -1)],
                     [("readall",)], [("it", -1), ("it", -1)]):
             for nrows in (4, 3):
-                fcases.append([17] + C.pack_bytes(shp3) + ([1] + C.pack_bytes(shx3) if with_idx else [0]) + [nrows] + C08.pair_case([], ops)[2:])
+                fcases.append([17, -1] + C.pack_bytes(shp3) + ([1] + C.pack_bytes(shx3) if with_idx else [0]) + [nrows] + C08.pair_case([], ops)[2:])
                 fmeta.append((with_idx, ops, nrows))
     fimpl = stages.correspondence(rep, "pairfile", dev, fcases, "pairfile(complete reader on given files, with and without index)", vm_sample=20)
     for c, (with_idx, ops, nrows), r in zip(fcases, fmeta, fimpl):
